@@ -566,9 +566,9 @@ func (g *Grammar) sample(r *Rand, i, depth int, sb *strings.Builder) {
 		case "1":
 			sb.WriteString([]string{"", " ", "  "}[r.Intn(3)])
 		case "3":
-			sb.WriteString([]string{"\n", " \n", "\n "}[r.Intn(3)])
+			sb.WriteString([]string{"\n", " \n", "\n ", "\r\n"}[r.Intn(4)])
 		default:
-			sb.WriteString([]string{"", " ", "\n", " \n "}[r.Intn(4)])
+			sb.WriteString([]string{"", " ", "\n", " \n ", "\r\n", "\t"}[r.Intn(6)])
 		}
 	}
 	switch nd.Op {
